@@ -38,6 +38,9 @@ def step (st : RSt) (ws : List String) : Option (RSt × String) :=
   | ["dispose", k] => do
     let (s, o) := Amqp.RecvCredit.step st (.dispose (← k.toNat?))
     pure (s, render s o)
+  | ["resume", idc] => do
+    let (s, o) := Amqp.RecvCredit.resume st (← idc.toNat?)
+    pure (s, render s o)
   | ["drain"] =>
     let (s, o) := Amqp.RecvCredit.step st .drain
     pure (s, render s o)
